@@ -166,7 +166,7 @@ func init() {
 		Rules:      []string{"TRV", "R3", "FAN", "RONLY", "IMM"},
 		Run: func(c *rules.Ctx) []report.Obligation {
 			return cat(c.TRV("TRV"), c.R3("R3", "graph"), c.FanOut("FAN", "graph"),
-				c.ROnly("RONLY", "graph", []string{"graph.walk"}, map[string]bool{"traversal.status": true, "traversal.results": true}), c.TRVSkip("TRV-11"), c.IMMGraph("IMM"))
+				c.ROnly("RONLY", "graph", []string{"graph.walk"}, map[string]bool{"traversal.status": true, "traversal.results": true}), c.TRVSkip("TRV-11"), c.TRVCount("TRV-8"), c.IMMGraph("IMM"))
 		},
 	})
 	def("C14", &propertyDef{
